@@ -172,6 +172,35 @@ func cmdTags(next func() string) {
 		}
 		hlib.Emit(rec)
 	}
+	// codecs built with a layout that carries a zone offset (NewTime / NewDate / NewTimestamp): a string with an explicit offset denotes an
+	// instant; the CQL value is that of the instant in UTC
+	for _, zc := range []struct {
+		codec  datacodec.Codec
+		typ    string
+		src    string
+		expect string
+	}{
+		{datacodec.NewTime("15:04:05.999999999-07:00"), "time", "10:15:30.123456789+05:30", "00000f946aec7115"},                               // 04:45:30.123456789Z = 17130123456789 ns
+		{datacodec.NewTime("15:04:05.999999999-07:00"), "time", "20:00:00-08:00", "00000d18c2e28000"},                                         // 04:00:00Z (next day) = 14400000000000 ns
+		{datacodec.NewDate("2006-01-02T15:04:05-07:00"), "date", "2021-06-01T23:30:00-08:00", "8000495c"},                                     // 2021-06-02Z = day 18780 (+2^31)
+		{datacodec.NewDate("2006-01-02T15:04:05-07:00"), "date", "2021-06-01T01:00:00+05:30", "8000495a"},                                     // 2021-05-31Z = day 18778 (+2^31)
+		{datacodec.NewTimestamp("2006-01-02T15:04:05.999-07:00", time.UTC), "timestamp", "2021-06-01T12:00:00.123+05:30", "00000179c643c2bb"}, // 06:30:00.123Z = 1622529000123 ms
+	} {
+		rec := &probeRec{Kind: "structprobe", Id: next(), TypeCql: zc.typ, Dest: "string " + zc.src,
+			What: "a string with an explicit zone offset, encoded by a codec whose layout carries the offset, gives the CQL value of the instant in UTC (" + zc.expect + ")"}
+		var enc []byte
+		var err error
+		if p, msg := safely(func() { enc, err = zc.codec.Encode(zc.src, primitive.ProtocolVersion4) }); p {
+			rec.Class, rec.Detail = "panic", msg
+		} else if err != nil {
+			rec.Class, rec.Detail = "err", err.Error()
+		} else {
+			rec.Class, rec.Hex = "ok", hex.EncodeToString(enc)
+			rec.Holds = rec.Hex == zc.expect
+			rec.Detail = "Encode gave " + rec.Hex
+		}
+		hlib.Emit(rec)
+	}
 	probes(next)
 }
 
